@@ -214,7 +214,7 @@ def resolve(roots, decide):
     memo = {}
     for t in topo(roots):
         a = [memo[x.id] for x in t.args]
-        if t.op in ("sym", "const", "true", "false"):
+        if t.op in ("sym", "const", "true", "false", "batom"):
             r = t
         elif t.op == "add":
             r = add(*a)
@@ -249,7 +249,7 @@ def substitute(roots, mapping):
         a = [memo[x.id] for x in t.args]
         if t.op == "sym":
             r = mapping.get(t.aux, t)
-        elif t.op in ("const", "true", "false"):
+        elif t.op in ("const", "true", "false", "batom"):
             r = t
         elif t.op == "add":
             r = add(*a)
@@ -271,6 +271,41 @@ def substitute(roots, mapping):
             raise ValueError(t.op)
         memo[t.id] = r
     return [memo[r.id] for r in roots]
+
+
+def assign(roots, amap):
+    """replace Boolean atoms `batom(key)` by the constants in amap (key -> bool)"""
+    memo = {}
+    for t in topo(roots):
+        a = [memo[x.id] for x in t.args]
+        if t.op == "batom":
+            r = (TRUE if amap[t.aux] else FALSE) if t.aux in amap else t
+        elif t.op in ("sym", "const", "true", "false"):
+            r = t
+        elif t.op == "add":
+            r = add(*a)
+        elif t.op == "sub":
+            r = sub(*a)
+        elif t.op == "mul":
+            r = mul(*a)
+        elif t.op == "neg":
+            r = neg(a[0])
+        elif t.op == "iszero":
+            r = iszero(a[0])
+        elif t.op == "not":
+            r = bnot(a[0])
+        elif t.op == "and":
+            r = band(*a)
+        elif t.op == "ite":
+            r = ite(*a)
+        else:
+            raise ValueError(t.op)
+        memo[t.id] = r
+    return [memo[r.id] for r in roots]
+
+
+def batoms(roots):
+    return sorted({t.aux for t in topo(roots) if t.op == "batom"})
 
 
 # ---- evaluation in a concrete field (for discovering witnesses) -----------
@@ -312,8 +347,14 @@ def evaluate(roots, env, p):
 
 # ---- z3 ---------------------------------------------------------------------
 
-def to_z3(roots, z3, syms=None):
-    """convert ite-free ring terms to z3 Real expressions (DAG preserved).
+def batom(key):
+    """Boolean atom standing for an external (z3) condition registered under `key`"""
+    return T("batom", (), key)
+
+
+def to_z3(roots, z3, syms=None, atoms=None):
+    """convert ring terms to z3 Real expressions (DAG preserved); `ite` and
+    Boolean structure are kept, `batom` keys are looked up in `atoms`.
     Returns (exprs, symbol table)."""
     syms = {} if syms is None else syms
     memo = {}
@@ -333,6 +374,22 @@ def to_z3(roots, z3, syms=None):
             r = a[0] * a[1]
         elif t.op == "neg":
             r = -a[0]
+        elif t.op == "ite":
+            r = z3.If(a[0], a[1], a[2])
+        elif t.op == "batom":
+            if atoms is None or t.aux not in atoms:
+                raise ValueError("to_z3: unknown Boolean atom %r" % (t.aux,))
+            r = atoms[t.aux]
+        elif t.op == "iszero":
+            r = a[0] == 0
+        elif t.op == "not":
+            r = z3.Not(a[0])
+        elif t.op == "and":
+            r = z3.And(a[0], a[1])
+        elif t.op == "true":
+            r = z3.BoolVal(True)
+        elif t.op == "false":
+            r = z3.BoolVal(False)
         else:
             raise ValueError("to_z3: unresolved " + t.op)
         memo[t.id] = r
